@@ -15,6 +15,8 @@ def main():
     if a.replay:
         from checks import replay
         return replay.main(a.replay)
+    if a.update_ledger:
+        os.environ["TSV_SAVE_REFSRC"] = "1"        # record the reference sources of the instrumented functions (for rename recovery)
     try:
         from tsv import ops, ops_move  # noqa: registers op models
         from tsv import selftest
